@@ -385,3 +385,48 @@ def r8_reruns(ctx: Ctx) -> None:
     if not ok:
         ctx.report(f.where, "recognition-skipped " + "; ".join(show(x) for x in c)[:160], "Netlist.create_stogs does not call create_stog() for every module unconditionally: "
                    "a module whose rectangles were moved keeps roles that no longer describe it", lineno=f.node.lineno)
+
+
+@rule("C06", "R9.every-listed-rectangle-read", "LOOP-COVER",
+      "the list create_stog examines is the list the design gives: parse_yaml_rectangles builds one rectangle for EVERY entry of the "
+      "rectangle list, unconditionally (no entry skipped because an equal one was seen, none filtered), and removes none afterwards -- a "
+      "repeated rectangle makes a module a non-orthogon and has to reach the recognition", floor=1)
+def r9_every_rectangle(ctx: Ctx) -> None:
+    from .common import YREAD
+    from framelint.canon import K_TRUE
+    f = ctx.func(YREAD, "parse_yaml_rectangles")
+    c = canon_function(f, ctx.model)
+    made = lambda x: isinstance(x, tuple) and contains(x, ("g", "parse_yaml_rectangle"))
+    n = 0
+
+    def walk(stmts, in_loop, guarded):
+        nonlocal n
+        for st in stmts:
+            if st[0] == "for" and len(st) == 5:
+                walk(st[3], True, False)
+            elif st[0] == "while":
+                walk(st[2] if len(st) > 2 and isinstance(st[2], tuple) else (), True, False)
+            elif st[0] == "if" and len(st) == 4:
+                # outside the loop the two spellings of the list are told apart; inside the loop nothing decides about an entry
+                walk(st[2], in_loop, guarded or in_loop)
+                walk(st[3], in_loop, guarded or in_loop)
+            elif st[0] == "expr" and st[1][0] == "c" and st[1][1][0] == "a" and made(st[1]):
+                meth = st[1][1][2]
+                if in_loop and meth in ("append", "add", "insert", "extend"):
+                    n += 1
+                    if guarded:
+                        ctx.report(f.where, "entry-skipped", "parse_yaml_rectangles adds the rectangle of an entry only under a condition: some entries of the design's "
+                                   "rectangle list never reach the module (a repeated rectangle is dropped, so [T, B, T] is recognised as the orthogon [T, B])",
+                                   lineno=f.node.lineno)
+    walk(c, False, False)
+    for cp in atoms_of(c, lambda x: x[0] == "comp" and len(x) == 4 and made(x[2])):
+        n += 1
+        if any(cl[2] != K_TRUE for cl in cp[3]):
+            ctx.report(f.where, "entry-skipped", "parse_yaml_rectangles filters the entries of the rectangle list it builds rectangles for", lineno=f.node.lineno)
+    removed = [x for x in walk_own(f.node) if isinstance(x, ast.Call) and isinstance(x.func, ast.Attribute) and x.func.attr in ("remove", "pop", "clear", "discard")
+               or isinstance(x, ast.Delete)]
+    removed += [x for x in walk_own(f.node) if isinstance(x, ast.Call) and call_name(x) in ("set", "frozenset", "unique", "fromkeys")]
+    ctx.site(f.where, "one rectangle per entry of the list, unconditionally; nothing removed", builders=n, removals=len(removed))
+    for x in removed:
+        ctx.report(f.where, f"entry-removed {ast.unparse(x)[:40]}", "parse_yaml_rectangles removes / de-duplicates rectangles after reading them", lineno=getattr(x, "lineno", 0))
+    ctx.require(n >= 1, "parse_yaml_rectangles: the construction of the rectangles was not found")
